@@ -396,7 +396,7 @@ func init() {
 	mutant(&Mutant{Name: "netserve-buffer-grown", Props: []string{"C16"}, File: fServer,
 		Old:    "\t\t\t\tpr.rd = rdbuf\n",
 		New:    "\t\t\t\tpr.rd = rdbuf\n\t\t\t\trdbuf.WriteByte('\\n')\n",
-		Expect: "R16.bounds", Key: "netServe$2→packet[len(packet)", Why: "the buffer over the packet is written to: its unread length can exceed len(packet) and the tail expression panics"})
+		Expect: "R16.bounds", Key: "netServe$go→packet[len(packet)", Why: "the buffer over the packet is written to: its unread length can exceed len(packet) and the tail expression panics"})
 	mutant(&Mutant{Name: "expire-arity-loosened", Props: []string{"C16"}, File: fCrud,
 		Old:    "\targs := msg.Args\n\tif len(args) != 4 {\n\t\treturn retwerr(errInvalidNumberOfArguments)\n\t}\n\tkey, id, svalue := args[1], args[2], args[3]",
 		New:    "\targs := msg.Args\n\tif len(args) < 3 {\n\t\treturn retwerr(errInvalidNumberOfArguments)\n\t}\n\tkey, id, svalue := args[1], args[2], args[3]",
@@ -999,4 +999,39 @@ func init() {
 			{fAOF, "\t\t_, _, err := tx.Set(\"hook:idx\", uint64ToString(s.qidx), nil)\n\t\tif err != nil {\n\t\t\treturn err\n\t\t}\n\t\treturn nil\n\t})", "\t\t_, _, err := tx.Set(\"hook:idx\", uint64ToString(qidx), nil)\n\t\tif err != nil {\n\t\t\treturn err\n\t\t}\n\t\treturn nil\n\t})\n\ts.qidx = qidx"},
 		},
 		Why: "the same refactoring done right: the local counter is the one that is persisted"})
+}
+
+func init() {
+	// ---- after the fourth batch of the refactoring experiment: the rules follow helpers; the broken form of each
+	// refactored shape must still be reported ------------------------------------------------------------------
+	const fMonitor = "internal/server/monitor.go"
+	mutant(&Mutant{Name: "fset-fold-in-helper-reads-stored-state", Props: []string{"C01"}, File: fCrud,
+		Old: "\t\tofields := o.Fields()\n\t\tfor _, f := range fields {\n\t\t\tprev := ofields.Get(f.Name())\n\t\t\tif !prev.Value().Equals(f.Value()) {\n\t\t\t\tofields = ofields.Set(f)\n\t\t\t\tupdateCount++\n\t\t\t}\n\t\t}\n",
+		New: "\t\tvar ofields field.List\n\t\tofields, updateCount = applyChangedFields(o, o.Fields(), fields)\n",
+		Edits: []Edit{{fCrud, "// FSET key id [XX] field value [field value...]\n",
+			"func applyChangedFields(o *object.Object, list field.List, fields []field.Field) (field.List, int) {\n\tvar changed int\n\tfor _, f := range fields {\n\t\tprev := o.Fields().Get(f.Name())\n\t\tif !prev.Value().Equals(f.Value()) {\n\t\t\tlist = list.Set(f)\n\t\t\tchanged++\n\t\t}\n\t}\n\treturn list, changed\n}\n\n// FSET key id [XX] field value [field value...]\n"}},
+		Expect: "R1.fold-reads-accumulator", Key: "applyChangedFields/list", Why: "the FSET fold extracted into a helper that still judges every pair against the stored object (reads o.Fields() on the parameter that carries it)"})
+	mutant(&Mutant{Name: "neutral-fset-fold-in-helper", Props: []string{"C01"}, File: fCrud, Neutral: true,
+		Old: "\t\tofields := o.Fields()\n\t\tfor _, f := range fields {\n\t\t\tprev := ofields.Get(f.Name())\n\t\t\tif !prev.Value().Equals(f.Value()) {\n\t\t\t\tofields = ofields.Set(f)\n\t\t\t\tupdateCount++\n\t\t\t}\n\t\t}\n",
+		New: "\t\tvar ofields field.List\n\t\tofields, updateCount = applyChangedFields(o.Fields(), fields)\n",
+		Edits: []Edit{{fCrud, "// FSET key id [XX] field value [field value...]\n",
+			"func applyChangedFields(list field.List, fields []field.Field) (field.List, int) {\n\tvar changed int\n\tfor _, f := range fields {\n\t\tprev := list.Get(f.Name())\n\t\tif !prev.Value().Equals(f.Value()) {\n\t\t\tlist = list.Set(f)\n\t\t\tchanged++\n\t\t}\n\t}\n\treturn list, changed\n}\n\n// FSET key id [XX] field value [field value...]\n"}},
+		Why: "the FSET fold extracted into a helper that folds into its parameter (batch 4, C01-m3)"})
+	mutant(&Mutant{Name: "monitor-helper-raw-arguments", Props: []string{"C17"}, File: fMonitor,
+		Old: "\tvar line []byte\n\tfor i, arg := range msg.Args {\n\t\tif i > 0 {\n\t\t\tline = append(line, ' ')\n\t\t}\n\t\tline = append(line, strconv.Quote(arg)...)\n\t}\n",
+		New: "\tline := appendMonitorArgs(nil, msg.Args)\n",
+		Edits: []Edit{{fMonitor, "func (s *Server) sendMonitor(", "func appendMonitorArgs(dst []byte, args []string) []byte {\n\tfor i, arg := range args {\n\t\tif i > 0 {\n\t\t\tdst = append(dst, ' ')\n\t\t}\n\t\tif i == 0 {\n\t\t\tdst = strconv.AppendQuote(dst, arg)\n\t\t} else {\n\t\t\tdst = append(dst, arg...)\n\t\t}\n\t}\n\treturn dst\n}\n\nfunc (s *Server) sendMonitor("}},
+		Expect: "R17.resp-lines", Key: "sendMonitor→line", Why: "the MONITOR line is assembled by a helper that quotes only the command name: a CR LF in a later argument splits the line"})
+	mutant(&Mutant{Name: "lives-queue-helper-pops-from-the-end", Props: []string{"C07", "C05", "C10"}, File: fLive,
+		Old: "\t\t\titem := s.lstack[0]\n\t\t\ts.lstack = s.lstack[1:]\n\t\t\tif len(s.lstack) == 0 {\n\t\t\t\ts.lstack = nil\n\t\t\t}\n",
+		New: "\t\t\titem := s.popLive()\n",
+		Edits: []Edit{{fLive, "func writeLiveMessage(", "func (s *Server) popLive() *commandDetails {\n\titem := s.lstack[len(s.lstack)-1]\n\ts.lstack = s.lstack[:len(s.lstack)-1]\n\tif len(s.lstack) == 0 {\n\t\ts.lstack = nil\n\t}\n\treturn item\n}\n\nfunc writeLiveMessage("}},
+		Expect: "R7.log-order-delivery", Key: "queue/lstack", Why: "the pop of the pending-writes queue extracted into a helper that takes the newest entry"})
+	mutant(&Mutant{Name: "shrink-helper-renames-after-reopen", Props: []string{"C09"}, File: fShrink,
+		Old: "\t\t\tif err := os.Rename(s.opts.AppendFileName+\"-shrink\", s.opts.AppendFileName); err != nil {\n\t\t\t\tlog.Fatalf(\"shrink rename fatal operation: %v\", err)\n\t\t\t}\n",
+		New: "",
+		Edits: []Edit{
+			{fShrink, "\t\t\tvar n int64\n\t\t\tn, err = s.aof.Seek(0, 2)\n", "\t\t\ts.installShrunkenAOF()\n\t\t\tvar n int64\n\t\t\tn, err = s.aof.Seek(0, 2)\n"},
+			{fShrink, "func (s *Server) aofshrink() {", "func (s *Server) installShrunkenAOF() {\n\tif err := os.Rename(s.opts.AppendFileName+\"-shrink\", s.opts.AppendFileName); err != nil {\n\t\tlog.Fatalf(\"shrink rename fatal operation: %v\", err)\n\t}\n}\n\nfunc (s *Server) aofshrink() {"}},
+		Expect: "R9.swap-order", Key: "rename-shrink-to-live→reopen-live", Why: "the rename moved into a helper that is called after the live log was reopened: the server appends to the old file, which the rename then replaces"})
 }
